@@ -485,9 +485,32 @@ pub fn check_case(c: &LifeCase, l: &mut Local) -> Result<(), String> {
                     }
                     l.count("reposition_on_locked_rejected");
                 } else if o.ok() {
+                    // re-ranged only to a different valid range (usable in-bounds ticks, lower < upper, the full range on full-range-only pools)
+                    let tsi = s.ts as i32;
+                    let usable = |t: i32| (MIN_TICK..=MAX_TICK).contains(&t) && t % tsi == 0;
+                    let mut valid = usable(lo) && usable(hi) && lo < hi;
+                    if s.ts >= 32768 && (lo != MIN_TICK / tsi * tsi || hi != MAX_TICK / tsi * tsi) {
+                        valid = false;
+                    }
+                    let same = (lo, hi) == (s.w.positions[p].lower, s.w.positions[p].upper);
+                    if !valid || same {
+                        return Err(ctx(format!("reposition_liquidity to [{lo}, {hi}] accepted; valid range={valid} same as before={same} (tick spacing {})", s.ts)));
+                    }
+                    let after = s.w.position_state(p).ok_or_else(|| ctx("position account missing".into()))?;
+                    if (after.tick_lower_index, after.tick_upper_index) != (lo, hi) {
+                        return Err(ctx("range not updated by reposition".into()));
+                    }
                     s.w.positions[p].lower = lo;
                     s.w.positions[p].upper = hi;
                     l.count("repositioned");
+                    if s.ts >= 32768 {
+                        l.count("repositioned_on_full_range_only_pool");
+                    }
+                } else {
+                    l.count("reposition_rejected");
+                    if s.ts >= 32768 {
+                        l.count("reposition_rejected_on_full_range_only_pool");
+                    }
                 }
             }
             LifeOp::Lock { pos } => {
